@@ -64,4 +64,11 @@ JoinNothingInventedInv == P!JoinNothingInvented(cfg, Obs)
 JoinCompleteInv == P!JoinComplete(cfg, Obs)
 Settle1Inv == P!Settle1(cfg, Obs)
 Settle2Inv == P!Settle2(cfg, Obs)
+\* liveness under weak fairness of the library's steps: cancelled and every input closed (no sender waiting) leads to
+\* "no forwarder and no closer left" - whether or not anybody receives from the output again
+FairSpec == Spec /\ WF_vars(Lib)
+EventuallyGone == (env.cancelled /\ \A i \in I : env.closedIn[i] /\ ~env.spend[i]) ~> (Obs.live = 0)
+\* ... and without a cancel: every input closed and a receiver that keeps receiving leads to the output being closed
+FairRecvSpec == Spec /\ WF_vars(Lib) /\ WF_vars(EnvRecv)
+EventuallyClosed == (\A i \in I : env.closedIn[i] /\ ~env.spend[i]) ~> obs.seen
 ====
